@@ -100,7 +100,9 @@ Forms ==
      Form(KwShort, <<>>, <<"0">>, <<"3","1">>),
      Form(KwLong, <<"[","1","]">>, << <<"9","9">> >>, << <<"-","5">> >>),
      Form(CName, <<>>, <<"X">>, <<"Y","Y">>),
-     Form(CName, <<"[","2","]">>, << <<"X">>, <<"Y","Y">> >>, << <<"Y","Y">>, <<"X">> >>) >>
+     Form(CName, <<"[","2","]">>, << <<"X">>, <<"Y","Y">> >>, << <<"Y","Y">>, <<"X">> >>),
+     Form(KwChar, <<"[","2","]","[","]">>, << <<>>, <<>> >>, << <<>>, <<>> >>),        \* only empty strings: width 0
+     Form(KwChar, <<"[","]">>, <<>>, <<>>) >>
 NForms == Len(Forms)
 AccNames == << <<"a","b">>, <<"a">>, <<"x","a">> >>      \* the second is a proper prefix of the first and a suffix of the third
 DeclText(fi, k, sep) == Forms[fi].base \o sep \o AccNames[k] \o Forms[fi].dims \o <<";">>
@@ -125,7 +127,7 @@ Styles ==
      Style("multi", <<>>, <<>>, <<>>, <<CR, NL>>, <<TAB>>, NmUpper),
      Style("multi", <<>>, CmtPlain, CmtPlain, <<NL>>, <<SP, SP>>, NmUpper) >>
 NStyles == Len(Styles)
-ReducedStyles == {1, 3, 5}
+ReducedStyles == {1, 3, 4, 5, 7}
 
 StructTextX(fs, sty) ==
   LET n == Len(fs) IN
